@@ -44,7 +44,7 @@ def html_block(state: StateBlock, startLine: int, endLine: int, silent: bool) ->
     if not state.md.options.get("html", None):
         return False
 
-    if state.src[pos] != "<":
+    if pos >= maximum or state.src[pos] != "<":
         return False
 
     lineText = state.src[pos:maximum]
